@@ -152,7 +152,8 @@ contract(H + "get_pool_results", params=dict(executors="list[Future]"), returns=
                                "all(res[j] is loop1_seq[j].value for j in range(loop1_i))",
                                "res is not loop1_seq and res is not executors",
                                ]},
-         ensures=[("none-lost-none-duplicated", "len(result) == len(executors)"),
+         ensures=[("fresh", "fresh(result)"),
+                  ("none-lost-none-duplicated", "len(result) == len(executors)"),
                   ("permutation-of-results",
                    "all(result[k] is executors[completion(executors, k)].value for k in range(len(result)))"),
                   ("every-future-contributes",
